@@ -31,6 +31,7 @@ type EntryCfg struct {
 	InitAllow []string                     `json:"init_allow"`
 	Opts      []string                     `json:"opts"`
 	Info      bool                         `json:"informational"`
+	Overlays  map[string]string            `json:"overlays"` // extra: rel package dir -> harness dir (exported test hooks of other packages)
 }
 
 type CheckCfg struct {
@@ -327,6 +328,9 @@ func cmdCheck(args []string) int {
 	for _, e := range entries {
 		patSet[e.Pkg] = true
 		hdirs[relOf(e.Pkg)] = e.Harness
+		for k, v := range e.Overlays {
+			hdirs[k] = v
+		}
 		allow = append(allow, e.InitAllow...)
 	}
 	var pats []string
